@@ -14,6 +14,7 @@ GAPS = [0, 0, 0.5, 1, 2]
 def cases(draw, tier):
     big = tier == 'thorough'
     item = [0]
+    special = list(draw(st.permutations([None, 0, ''])))
     sl = lambda: {'op': 'sleep', 'd': draw(st.sampled_from(GAPS))}  # noqa
 
     def producer(i):
@@ -23,6 +24,9 @@ def cases(draw, tier):
             if r < 6:
                 item[0] += 1
                 steps.append({'op': 'qput', 's': 0, 'v': item[0]})
+                if special and draw(st.integers(0, 3)) == 0:
+                    # items are opaque payload: None, zero, empty and false ones travel like any other (each once per program)
+                    steps[-1]['v'] = special.pop()
                 if draw(st.integers(0, 5)) == 0:
                     steps[-1]['defer'] = draw(st.sampled_from([0, 0, 0.5, 1, 2]))
             elif r < 8:
@@ -55,6 +59,17 @@ def cases(draw, tier):
 
     kids = [producer(i) for i in range(draw(st.integers(1, 3)))] + \
            [consumer(i) for i in range(draw(st.integers(1, 4)))]
+    if draw(st.integers(0, 11)) == 0:
+        # a crowd: dozens of receivers queue for the items, some of them give up after a while
+        crowd = draw(st.integers(34, 70))
+        kids = [{'name': 'p0', 'steps': [x for _ in range(crowd) for x in (
+            {'op': 'qput', 's': 0, 'v': 1000 + _}, {'op': 'sleep', 'd': 0.5} if _ % 7 == 0 else {'op': 'instant'})]}]
+        kids[0]['after'] = 3
+        for i in range(crowd):
+            g = {'op': 'qget', 's': 0}
+            if draw(st.integers(0, 7)) == 0:
+                g = {'op': 'until', 'name': 'U%d_0' % i, 'notif': ['delay', draw(st.sampled_from([1, 2]))], 'children': [], 'body': [g]}
+            kids.append({'name': 'c%d' % i, 'steps': [g]})
     kids = [kids[i] for i in draw(st.permutations(list(range(len(kids)))))]
     for k in kids:
         if draw(st.integers(0, 3)) == 0:
